@@ -4,6 +4,7 @@
 package main
 
 import (
+	"runtime/pprof"
 	"encoding/json"
 	"flag"
 	"fmt"
@@ -159,6 +160,8 @@ func cmdRun(args []string) int {
 	secs := fs.Int("secs", 0, "time limit")
 	trace := fs.Bool("trace", false, "collect verifTrace output")
 	replay := fs.Bool("replay", true, "replay violations natively")
+	pathSecs := fs.Int("path-secs", 300, "per-path wall time limit")
+	prof := fs.String("cpuprofile", "", "write CPU profile")
 	fs.Parse(args)
 	scratch, _ := os.MkdirTemp("", "vf")
 	defer os.RemoveAll(scratch)
@@ -177,6 +180,12 @@ func cmdRun(args []string) int {
 	cfg := sym.DefaultConfig()
 	cfg.Tier = *tier
 	cfg.Trace = *trace
+	cfg.MaxPathSecs = *pathSecs
+	if *prof != "" {
+		f, _ := os.Create(*prof)
+		pprof.StartCPUProfile(f)
+		defer pprof.StopCPUProfile()
+	}
 	lim := sym.Limits{MaxPaths: *maxPaths}
 	if *secs > 0 {
 		lim.Deadline = time.Now().Add(time.Duration(*secs) * time.Second)
@@ -190,6 +199,10 @@ func cmdRun(args []string) int {
 	printReportDetails(rep)
 	for i, v := range rep.Violations {
 		b, _ := json.Marshal(v)
+		if i >= 2 {
+			fmt.Printf("VIOLATION[%d] %s: %s\n", i, v.Kind, truncate(v.Msg, 200))
+			continue
+		}
 		fmt.Printf("VIOLATION[%d] %s\n", i, truncate(string(b), 1500))
 		for _, l := range v.Trace {
 			fmt.Println("   trace:", l)
